@@ -2,7 +2,7 @@
 import re
 
 from analysis import (Prov, Guards, fmt, fmt_short, walk, roots, short, comparison, find_calls, callee_matches,
-                      must_pass, path_to, describe_path, peel_await, edge_label)
+                      must_pass, path_to, describe_path, peel_await, edge_label, closures_of, closure_return_in_caller_terms)
 from facts import AnchorError, strip_closure
 from harness import Rule, guarded
 
@@ -484,15 +484,18 @@ def r5(ctx):
         rule.analysed(b)
         p = Prov(b, facts)
         calls = [(bi, t) for bi, t in b.calls() if (t.callee() or "") == CR + "generate_signing_nonce"]
-        digest = [(bi, t) for bi, t in b.calls() if callee_matches(t, r"DigestVerifier.*::verify_digest$|DigestSigner.*::try_sign_digest$|::verify_digest$|::try_sign_digest$")]
+        DIG = r"DigestVerifier.*::verify_digest$|DigestSigner.*::try_sign_digest$|::verify_digest$|::try_sign_digest$"
+        # the digest call may sit in a closure handed to a combinator (`try_from(sig).is_ok_and(|s| key.verify_digest(.., &s).is_ok())`)
+        digest = [(t, p.operand(t.args[1])) for bi, t in b.calls() if callee_matches(t, DIG)]
+        for cb, cp, to_caller in closures_of(facts, b):
+            digest += [(t, to_caller(cp.operand(t.args[1]))) for bi, t in cb.calls() if callee_matches(t, DIG)]
         okk = len(calls) == 1 and digest
         if okk:
             a = [fmt_short(p.operand(x)) for x in calls[0][1].args]
             names = [b.local_name(i) for i in range(1, b.arg_count + 1)]
             # arguments are the function's own (challenge data, ephemeral key, destination id)
             okk = all(x in names for x in a) and len(set(a)) == 3
-            for bi, t in digest:
-                msg = p.operand(t.args[1])
+            for t, msg in digest:
                 okk = okk and derives(msg, lambda y: y[0] == "call" and y[1] == CR + "generate_signing_nonce")
         rule.check(okk, "%s hashes generate_signing_nonce(own parameters)" % fn, "signing-nonce|user|%s" % fn,
                    "%s does not sign/verify the output of generate_signing_nonce over its own parameters" % fn, loc=b.loc(b.line))
@@ -508,6 +511,13 @@ def r5(ctx):
         if kind == "call" and callee_matches(payload, r"result::Result::<.*>::is_ok$|Result::is_ok$"):
             e = p.operand(payload.args[0])
             if derives(e, lambda y: y[0] == "call" and short(y[1]).endswith("verify_digest")):
+                n_true += 1
+                continue
+        if kind == "call" and callee_matches(payload, r"(result::Result|option::Option)::<.*>::(is_ok_and|is_some_and)$|(Result|Option)::(is_ok_and|is_some_and)$"):
+            # `x.is_ok_and(|v| verify_digest(.., v).is_ok())`: true only if the closure returns true
+            inner = closure_return_in_caller_terms(facts, p.operand(payload.args[1]), [("unknown", "payload")])
+            if inner is not None and inner[0] == "call" and short(inner[1]).endswith("Result::is_ok") and \
+                    derives(inner[2][0], lambda y: y[0] == "call" and short(y[1]).endswith("verify_digest")):
                 n_true += 1
                 continue
         bad.append(blk)
